@@ -143,3 +143,30 @@ def gen_k50_interleaved(rng, n):
         out.append([50, kb, [], [OPEN, OPEN], data, [inner, outer], ops])
         meta.append({"nq": 2, "partial": True, "nested": True, "full": False})
     return out, meta
+
+
+def gen_k50_nested_full(rng, n):
+    """a fully quantified quantifier over a quantifier with a free variable, all four Forall/Exists combinations
+    (Forall(x, Exists(y, f)), Exists(x, Forall(y, f)), and the same-kind nests that Forall(x, y, f) builds), random worlds"""
+    out, meta = [], []
+    for _ in range(n):
+        kb = [[0, [], [], 2, list(gen_fol.DEFP), []], [1, [0], [[0, 1]], 2, list(gen_fol.DEFP), [[0, 1]]]]
+        k1, k2 = rng.choice([0, 1]), rng.choice([0, 1])
+        inner = [k1, 1, [0], rng.choice([0, 0, 2]), rng.choice([OPEN, OPEN, AXIOM]), [0, 1]]
+        outer = [k2, 2, [], rng.choice([0, 0, 2]), rng.choice([OPEN, CLOSED, AXIOM]), [0]]
+        d = {}
+        for x in range(rng.choice([2, 2, 3])):
+            for y in range(rng.choice([1, 2, 2])):
+                if rng.random() < 0.9:
+                    d[(x, y)] = rng.choice([[F(1), F(1)], [F(0), F(0)], [F(0), F(1)], gen_fol.rnd_fact(rng, 0.3)])
+        if not d:
+            d[(0, 0)] = [F(0), F(1)]
+        items = list(d.items())
+        rng.shuffle(items)
+        cycle = [[1, 1], [20, 0], [20, 1], [21, 1], [21, 0], [2, 1, -1]]
+        ops = list(cycle)
+        if rng.random() < 0.5:
+            ops += [[8, 0, [[[rng.randrange(3), rng.randrange(2)], gen_fol.rnd_fact(rng, 0.5)]]]] + cycle
+        out.append([50, kb, [], [OPEN, OPEN], [[0, [[list(g), b] for g, b in items]]], [inner, outer], ops])
+        meta.append({"nq": 2, "partial": True, "nested": True, "full": False})
+    return out, meta
